@@ -445,6 +445,8 @@ pub struct Emitted {
     pub sender: Option<(usize, u32, u64)>,
     /// Referenced server entity.
     pub reference: Option<u64>,
+    /// Clients that were authorized when the event was emitted.
+    pub auth_at_emit: BTreeSet<usize>,
     /// Clients that could see the referenced entity when the event was emitted.
     pub ref_visible_at_emit: BTreeSet<usize>,
     pub emit_frame: u32,
@@ -732,6 +734,7 @@ impl EvCell {
                     client_kind: None,
                     recipients,
                     sender: None,
+                    auth_at_emit: (0..x.sim.clients.len()).filter(|&c| x.sim.is_authorized(c)).collect(),
                     ref_visible_at_emit: reference
                         .map(|e| (0..x.sim.clients.len()).filter(|&c| x.sim.visible_now(c, e.to_bits())).collect())
                         .unwrap_or_default(),
@@ -792,6 +795,7 @@ impl EvCell {
                     client_kind: Some(kind),
                     recipients: BTreeSet::new(),
                     sender: Some((c, session, conn.to_bits())),
+                    auth_at_emit: BTreeSet::new(),
                     ref_visible_at_emit: BTreeSet::new(),
                     reference: server_entity.map(|e| e.to_bits()),
                     emit_frame: x.sim.server_frames,
@@ -1194,7 +1198,8 @@ impl EvCell {
                         // Dependent kinds need the recipient to be authorized when the event
                         // is flushed; without authentication connecting authorizes at once.
                         let on_wire = x.wire_frame.contains_key(&(c, em.tag, em.n));
-                        let required = kind.independent() || self.cfg.auth == Auth::None || on_wire;
+                        // (a recipient that was already authorized at emission is authorized at the flush)
+                        let required = kind.independent() || self.cfg.auth == Auth::None || on_wire || em.auth_at_emit.contains(&c);
                         if !required {
                             continue;
                         }
